@@ -4,6 +4,7 @@ import (
 	"fmt"
 	"io"
 	"regexp"
+	"strings"
 
 	"github.com/elliotchance/gedcom/v39"
 	"github.com/elliotchance/gedcom/v39/html/core"
@@ -123,6 +124,11 @@ func PageSource(source *gedcom.SourceNode) string {
 			return fmt.Sprintf("-%x", s)
 		})
 
+	// Pages that always have the same name cannot be used for anything else.
+	if isReservedPageName(name) {
+		name = fmt.Sprintf("-%x%s", name[:1], name[1:])
+	}
+
 	return fmt.Sprintf("%s.html", name)
 }
 
@@ -171,6 +177,11 @@ func colorClassForIndividual(individual *gedcom.IndividualNode) string {
 }
 
 func getUniqueKey(individualMap map[string]*gedcom.IndividualNode, s string, placesMap map[string]*place) string {
+	// Pages that always have the same name cannot be used for anything else.
+	if isReservedPageName(s) {
+		s = "-" + s
+	}
+
 	i := -1
 	for {
 		i += 1
@@ -193,6 +204,19 @@ func getUniqueKey(individualMap map[string]*gedcom.IndividualNode, s string, pla
 
 	// This should not be possible
 	panic(s)
+}
+
+// isReservedPageName is true for the names of the pages that always have the
+// same name, like "places" or "individuals-a". Pages that are named after
+// something in the file must not use them.
+func isReservedPageName(name string) bool {
+	switch name + ".html" {
+	case PagePlaces(), PageFamilies(), PageSources(), PageStatistics(),
+		PageSurnames():
+		return true
+	}
+
+	return strings.HasPrefix(name, "individuals-")
 }
 
 func surnameStartsWith(individual *gedcom.IndividualNode, letter rune) bool {
